@@ -69,7 +69,7 @@ class C18(Check):
                       "static server (SimHTTP)", "process boundary "
                       "(fresh accessor objects, dead-epoch handles)"],
     }
-    tiers = {"quick": dict(runs=320, budget=70, batch=4, recheck_every=40),
+    tiers = {"quick": dict(runs=640, budget=75, batch=4, recheck_every=40),
              "thorough": dict(runs=12000, budget=900, batch=4,
                               recheck_every=200)}
     expected_probes = ["crash_in_shard_data", "crash_before_shard_index",
